@@ -116,6 +116,10 @@ class PEval(Folder):
                 if v[0] != "ref":
                     return TOP
                 v = self._load_ptr(st, v[1])
+            elif isinstance(e, dict) and "boxc" in e:
+                v = v[1] if v[0] == "boxed" else TOP
+            elif isinstance(e, dict) and "f" in e and v[0] == "boxed":
+                pass  # Box -> Unique -> NonNull wrappers: still the box
             elif isinstance(e, dict) and "f" in e:
                 i = e["f"]
                 if v[0] in ("tuple", "array"):
@@ -230,6 +234,14 @@ class PEval(Folder):
         if not proj:
             return val
         e = proj[0]
+        if isinstance(e, dict) and "boxc" in e:
+            if old == TOP or old[0] != "boxed":
+                return TOP
+            rest = list(proj[1:])
+            # MaybeUninit / ManuallyDrop / MaybeDangling are transparent wrappers: the content is the wrapped value itself
+            while rest and isinstance(rest[0], dict) and rest[0].get("name") in ("value", "0") and (old[1] == TOP or old[1][0] != "adt"):
+                rest.pop(0)
+            return ("boxed", self._update(st, fidx, old[1], rest, val))
         if old == TOP:
             return TOP
         if isinstance(e, dict) and "f" in e:
@@ -334,6 +346,12 @@ class PEval(Folder):
             v = self._operand(st, rv["op"])
             if v != TOP and v[0] in ("fn", "fnaddr"):
                 return ("fnaddr", v[1])
+        elif k == "cast" and rv.get("kind") in ("Transmute", "PtrToPtr") and rv["op"].get("p") and rv["op"]["p"]["proj"]:
+            p = rv["op"]["p"]
+            fidx = len(st.frames) - 1
+            base = self._load_local(st, fidx, p["l"])
+            if base != TOP and base[0] == "boxed" and all(isinstance(e, dict) and "f" in e for e in p["proj"]):
+                return ("ref", ("place", fidx, p["l"], ({"boxc": 1},)))
         elif k == "agg" and rv.get("agg") == "closure":
             return ("closure", rv.get("path"), tuple(self._operand(st, o) for o in rv["ops"]))
         elif k in ("ref", "rawptr"):
@@ -734,6 +752,18 @@ class PEval(Folder):
         fidx = len(st.frames) - 1
         if t.get("target") is None:
             raise _Abort("diverge", "diverging call to %s at %s:%s" % (name, t.get("file"), t.get("line")))
+        if name and name.startswith("std::convert::num::<impl std::convert::From<bool> for ") and len(args) == 1 and args[0] != TOP:
+            ty = name[len("std::convert::num::<impl std::convert::From<bool> for "):].split(">")[0]
+            a = args[0]
+            if a[0] == "sbit":
+                # the integer whose bit 0 is the symbolic boolean
+                self._store(st, fidx, t["dest"], ("tagint", ty, 0, (a[1], a[2], a[3])))
+                self._enter_block(st, t["target"])
+                return
+            if a[0] == "bool":
+                self._store(st, fidx, t["dest"], mk_int(ty, 1 if a[1] else 0))
+                self._enter_block(st, t["target"])
+                return
         if any(a != TOP and a[0] == "sbit" for a in args):
             callee = self.facts.fn(name) if name else None
             if callee is None:
@@ -766,8 +796,13 @@ class PEval(Folder):
             self._store(st, fidx, t["dest"], v)
             self._enter_block(st, t["target"])
             return
-        if name == "<T as std::convert::Into<U>>::into" and len(t.get("generics") or []) == 2:
-            src, dst = t["generics"]
+        if name in ("<T as std::convert::Into<U>>::into", "std::convert::Into::into") and len(t.get("generics") or []) == 2:
+            sub = st.frames[-1][1].get("subst") or {}
+            src, dst = [sub.get(g, g) for g in t["generics"]]
+            if src == dst:
+                self._store(st, fidx, t["dest"], args[0])
+                self._enter_block(st, t["target"])
+                return
             cands = [p_ for p_, r_ in self.facts.fns.items() if r_.get("name") == "from" and r_.get("inputs") == [src] and r_.get("output") == dst]
             if len(cands) == 1:
                 name = cands[0]
@@ -784,7 +819,10 @@ class PEval(Folder):
                 self._store(st, fidx, t["dest"], self.memo[key])
                 self._enter_block(st, t["target"])
                 return
+            sub = self._subst_for(st, callee, t)
             self._push_frame(st, callee, args, t["dest"], t["target"])
+            if sub:
+                st.frames[-1][1]["subst"] = sub
             if key is not None:
                 st.frames[-1].append(key)
             return
@@ -793,6 +831,18 @@ class PEval(Folder):
             self._opaque_call(st, t, args)
             return
         raise _Abort("top", "call to %s is not modelled (at %s:%s)" % (name, t.get("file"), t.get("line")))
+
+    def _subst_for(self, st, callee, t):
+        """type parameters of a generic crate function bound by this call: parameter name -> the caller's argument type"""
+        tyts = callee.raw.get("inputs_tyt") or []
+        if not any(x.get("k") == "param" for x in tyts):
+            return None
+        outer = st.frames[-1][1].get("subst") or {}
+        sub = {}
+        for x, a in zip(tyts, t["args"]):
+            if x.get("k") == "param" and a.get("ty"):
+                sub[x["name"]] = outer.get(a["ty"], a["ty"])
+        return sub
 
     def _memo_key(self, st, name, args):
         out = []
@@ -867,10 +917,19 @@ class PEval(Folder):
                 raise _Abort("top", "evaluation ended inside a closure")
 
     # -------------------------------------------------------------- public API
-    def call(self, fn_path, args, cells=None):
-        """run one crate function to completion; returns fold.Result (kind 'ret' | 'top' | 'diverge')"""
+    def call(self, fn_path, args, cells=None, subst=None):
+        """run one crate function to completion; returns fold.Result (kind 'ret' | 'top' | 'diverge').
+        subst binds the type parameters of a generic entry function (name -> concrete type)"""
+        self._pending_subst = dict(subst) if subst else None
         r = self.run(fn_path, args, cells=cells)
+        self._pending_subst = None
         return r
+
+    def _push_frame(self, st, fn, args, dest, target):
+        super()._push_frame(st, fn, args, dest, target)
+        if getattr(self, "_pending_subst", None):
+            st.frames[-1][1]["subst"] = self._pending_subst
+            self._pending_subst = None
 
 
 # --------------------------------------------------------------------------
@@ -1114,11 +1173,13 @@ def _array_index(pe, st, args, t):
         n = tgt[2] - tgt[1]
     else:
         raise _Abort("top", "indexing a non-array")
-    if idx[0] == "adt" and idx[1] == "std::ops::Range":
-        lo, hi = idx[4]
-        if lo == TOP or hi == TOP:
+    if idx[0] == "adt" and idx[1] in ("std::ops::Range", "std::ops::RangeFrom", "std::ops::RangeTo", "std::ops::RangeFull", "std::ops::RangeToInclusive"):
+        kind = idx[1].rsplit("::", 1)[1]
+        if any(x == TOP or x[0] != "int" for x in idx[4]):
             raise _Abort("top", "slice with unknown bounds")
-        lo, hi = lo[2], hi[2]
+        vals = [x[2] for x in idx[4]]
+        lo, hi = {"Range": lambda: (vals[0], vals[1]), "RangeFrom": lambda: (vals[0], n), "RangeTo": lambda: (0, vals[0]),
+                  "RangeFull": lambda: (0, n), "RangeToInclusive": lambda: (0, vals[0] + 1)}[kind]()
         if not (lo <= hi <= n):
             raise _Abort("diverge", "slice %d..%d out of range for length %d" % (lo, hi, n))
         if base[1][0] == "place":
@@ -1183,8 +1244,14 @@ def _chunks_exact(pe, st, args, t):
         lo, hi = 0, v[1]
     elif v[0] == "symslice":
         lo, hi = v[1], v[2]
+    elif v[0] in ("array", "harr", "hview"):
+        items = _seq_items(pe, v)
+        k = n[2]
+        end = len(items) - len(items) % k
+        return ("iter", tuple(("ref", ("const", ("array", tuple(items[a:a + k])))) for a in range(0, end, k)), 0,
+                ("remainder", ("array", tuple(items[end:]))))
     else:
-        raise _Abort("top", "chunks_exact on a concrete slice is not modelled")
+        raise _Abort("top", "chunks_exact on an unknown slice")
     k = n[2]
     end = hi - (hi - lo) % k
     return ("iter", tuple(("ref", ("const", ("symslice", a, a + k))) for a in range(lo, end, k)), 0, ("remainder", ("symslice", end, hi)))
@@ -1241,12 +1308,15 @@ def _collect(pe, st, args, t):
         raise _Abort("top", "collect() of an unknown iterator")
     vals = tuple(it[1][it[2]:])
     if dty.startswith("std::vec::Vec<"):
-        if len(vals) <= 16 and not any(v != TOP and v[0] == "int" for v in vals):
-            return ("array", vals)
-        h = pe.heap.new(len(vals), TOP)
-        for i, v in enumerate(vals):
-            pe.heap.put(h, i, v)
-        return h
+        return _vec_of(pe, vals)
+    if dty.startswith("std::option::Option<std::vec::Vec<"):
+        out = []
+        for x in vals:
+            o = _known_adt(x, OPTION, "collect::<Option<Vec<_>>>")
+            if o[3] != "Some":
+                return NONE
+            out.append(o[4][0])
+        return some(_vec_of(pe, out))
     if dty == "std::string::String":
         out = []
         for x in vals:
@@ -1270,6 +1340,15 @@ def _slice_last(pe, st, args, t):
         if hi <= lo:
             return NONE
         return some(("ref", ("const", ("sbyte", hi - 1 if last else lo))))
+    items = _seq_items(pe, v)
+    if items is not None:
+        if not items:
+            return NONE
+        k = len(items) - 1 if last else 0
+        base = args[0]
+        if base != TOP and base[0] == "ref" and base[1][0] == "place":
+            return some(("ref", ("place", base[1][1], base[1][2], tuple(base[1][3]) + ({"cidx": k, "fe": False},))))
+        return some(("ref", ("const", items[k])))
     raise _Abort("top", "first()/last() on an unknown slice")
 
 
@@ -1292,6 +1371,28 @@ def _slice_get(pe, st, args, t):
     if base[1][0] == "place":
         return some(("ref", ("place", base[1][1], base[1][2], tuple(base[1][3]) + ({"cidx": idx[2], "fe": False},))))
     return some(("ref", ("const", pe._project(st, 0, tgt, [{"cidx": idx[2], "fe": False}]))))
+
+
+@pmodel("core::slice::<impl [T]>::fill")
+def _slice_fill(pe, st, args, t):
+    r, val = args
+    v = _deref(pe, st, r)
+    if r == TOP or r[0] != "ref" or v == TOP:
+        raise _Abort("top", "fill() on an unknown slice")
+    if v[0] == "hview":
+        for i in range(v[2], v[3]):
+            pe.heap.put(("harr", v[1]), i, val)
+        return UNIT
+    if v[0] == "harr":
+        for i in range(pe.heap.length(v)):
+            pe.heap.put(v, i, val)
+        return UNIT
+    if v[0] == "array" and r[1][0] == "place":
+        base = r[1]
+        for i in range(len(v[1])):
+            pe.store_ptr(st, ("place", base[1], base[2], tuple(base[3]) + ({"cidx": i, "fe": False},)), val)
+        return UNIT
+    raise _Abort("top", "fill() on an unknown slice")
 
 
 @pmodel("core::slice::<impl [T]>::iter_mut")
@@ -1390,6 +1491,30 @@ def _vec_from_elem(pe, st, args, t):
     return pe.heap.new(n[2], elem)
 
 
+@pmodel("std::boxed::Box::<T>::new_uninit")
+def _box_new_uninit(pe, st, args, t):
+    return ("boxed", TOP)
+
+
+def _vec_of(pe, vals):
+    """the value of a Vec holding vals (convention of vec![x; n]: short vectors of non-integers are plain arrays)"""
+    vals = tuple(vals)
+    if len(vals) <= 16 and not any(v != TOP and v[0] == "int" for v in vals):
+        return ("array", vals)
+    h = pe.heap.new(len(vals), TOP)
+    for i, v in enumerate(vals):
+        pe.heap.put(h, i, v)
+    return h
+
+
+@pmodel("std::boxed::box_assume_init_into_vec_unsafe")
+def _box_into_vec(pe, st, args, t):
+    b = args[0]
+    if b == TOP or b[0] != "boxed" or b[1] == TOP or b[1][0] != "array":
+        raise _Abort("top", "vec![..] literal with unknown contents")
+    return _vec_of(pe, b[1][1])
+
+
 @pmodel("std::vec::Vec::<T>::new")
 def _vec_new(pe, st, args, t):
     return pe.heap.new(0, TOP)
@@ -1437,6 +1562,8 @@ def _vec_index(pe, st, args, t):
             base = args[0][1]
             return ("ref", ("place", base[1], base[2], tuple(base[3]) + ({"cidx": i[2], "fe": False},)))
         return ("ref", ("const", v[1][i[2]]))
+    if v != TOP and v[0] in ("harr", "array", "hview", "symvec", "symslice") and i != TOP and i[0] == "adt":
+        return _array_index(pe, st, args, t)
     raise _Abort("top", "Vec index on an unknown vector")
 
 
@@ -1510,7 +1637,38 @@ def _opt_unwrap_or_default(pe, st, args, t):
     o = _known_adt(args[0], OPTION, "unwrap_or_default")
     if o[3] == "Some":
         return o[4][0]
-    raise _Abort("top", "unwrap_or_default() of None: default value not modelled")
+    dty = t.get("dest_ty") or ""
+    if dty.startswith("std::vec::Vec<"):
+        return pe.heap.new(0, TOP)
+    if dty == "std::string::String":
+        return ("string", ())
+    if dty in ("usize", "u8", "u16", "u32", "u64", "i32", "i64", "isize"):
+        return mk_int(dty, 0)
+    raise _Abort("top", "unwrap_or_default() of None: default value of %s not modelled" % dty)
+
+
+@pmodel("std::option::Option::<T>::get_or_insert", "std::option::Option::<T>::insert", "std::option::Option::<T>::replace",
+        "std::option::Option::<T>::take", "std::option::Option::<T>::get_or_insert_with")
+def _opt_mutators(pe, st, args, t):
+    nm = (t.get("callee") or "").rsplit("::", 1)[1]
+    r = args[0]
+    if r == TOP or r[0] != "ref" or r[1][0] != "place":
+        raise _Abort("top", "%s() on an unknown Option" % nm)
+    o = _known_adt(_deref(pe, st, r), OPTION, nm)
+    inner = ("ref", ("place", r[1][1], r[1][2], tuple(r[1][3]) + ({"dc": "Some", "vi": 1}, {"f": 0, "name": "0"})))
+    if nm == "take":
+        pe.store_ptr(st, r[1], NONE)
+        return o
+    if nm == "replace":
+        pe.store_ptr(st, r[1], some(args[1]))
+        return o
+    if nm == "insert":
+        pe.store_ptr(st, r[1], some(args[1]))
+        return inner
+    if o[3] != "Some":
+        v = args[1] if nm == "get_or_insert" else pe.invoke_closure(st, args[1], [])
+        pe.store_ptr(st, r[1], some(v))
+    return inner
 
 
 @pmodel("std::option::Option::<T>::ok_or")
@@ -1607,6 +1765,37 @@ def _res_map_err(pe, st, args, t):
     return ("adt", RESULT, 1, "Err", (pe.invoke_closure(st, args[1], [r[4][0]]),))
 
 
+@pmodel("std::result::Result::<T, E>::map")
+def _res_map(pe, st, args, t):
+    r = _known_adt(args[0], RESULT, "map")
+    if r[3] == "Err":
+        return r
+    return ("adt", RESULT, 0, "Ok", (pe.invoke_closure(st, args[1], [r[4][0]]),))
+
+
+@pmodel("std::result::Result::<T, E>::unwrap_or")
+def _res_unwrap_or(pe, st, args, t):
+    r = _known_adt(args[0], RESULT, "unwrap_or")
+    return r[4][0] if r[3] == "Ok" else args[1]
+
+
+@pmodel("std::result::Result::<T, E>::unwrap_or_default", "std::result::Result::<T, E>::unwrap_or_else", "std::result::Result::<T, E>::map_or",
+        "std::result::Result::<T, E>::map_or_else", "std::result::Result::<T, E>::and_then")
+def _res_misc(pe, st, args, t):
+    nm = (t.get("callee") or "").rsplit("::", 1)[1]
+    r = _known_adt(args[0], RESULT, nm)
+    ok = r[3] == "Ok"
+    if nm == "unwrap_or_default":
+        return r[4][0] if ok else _opt_unwrap_or_default(pe, st, [NONE], t)
+    if nm == "unwrap_or_else":
+        return r[4][0] if ok else pe.invoke_closure(st, args[1], [r[4][0]])
+    if nm == "map_or":
+        return pe.invoke_closure(st, args[2], [r[4][0]]) if ok else args[1]
+    if nm == "map_or_else":
+        return pe.invoke_closure(st, args[2], [r[4][0]]) if ok else pe.invoke_closure(st, args[1], [r[4][0]])
+    return pe.invoke_closure(st, args[1], [r[4][0]]) if ok else r
+
+
 @pmodel("<std::result::Result<T, E> as std::ops::Try>::branch")
 def _res_branch(pe, st, args, t):
     r = _known_adt(args[0], RESULT, "?")
@@ -1681,14 +1870,35 @@ def _string_new(pe, st, args, t):
     return ("string", ())
 
 
+@pmodel("std::string::String::reserve", "std::string::String::reserve_exact", "std::string::String::shrink_to_fit",
+        "std::vec::Vec::<T, A>::reserve", "std::vec::Vec::<T, A>::reserve_exact", "std::vec::Vec::<T, A>::shrink_to_fit")
+def _capacity_noop(pe, st, args, t):
+    return UNIT  # capacity is not observable
+
+
 @pmodel("std::string::String::push")
 def _string_push(pe, st, args, t):
     r, c = args
     cur = _deref(pe, st, r)
-    if r == TOP or r[0] != "ref" or cur == TOP or cur[0] != "string" or c == TOP or c[0] != "char":
+    toks = _char_tokens(c)
+    if r == TOP or r[0] != "ref" or cur == TOP or cur[0] != "string" or toks is None:
         raise _Abort("top", "String::push on an unknown string/char")
-    pe.store_ptr(st, r[1], ("string", cur[1] + (c[1],)))
+    pe.store_ptr(st, r[1], ("string", cur[1] + toks))
     return UNIT
+
+
+def _char_tokens(c):
+    """string tokens of a character value: a known char, or a selection between characters made under symbolic conditions"""
+    if c == TOP:
+        return None
+    if c[0] == "char":
+        return (c[1],)
+    if c[0] == "sel" and len(c) == 4:
+        a, b = _char_tokens(c[2]), _char_tokens(c[3])
+        if a is None or b is None:
+            return None
+        return (("sel", c[1], a, b),)
+    return None
 
 
 @pmodel("std::string::String::push_str")
@@ -1717,6 +1927,201 @@ def _string_pop(pe, st, args, t):
     return some(("char", last))
 
 
+def _seq_items(pe, v):
+    """the elements of a concrete array / vector / slice view, else None"""
+    if v == TOP:
+        return None
+    if v[0] == "array":
+        return list(v[1])
+    if v[0] == "harr":
+        return [pe.heap.get(v, i) for i in range(pe.heap.length(v))]
+    if v[0] == "hview":
+        return [pe.heap.get(("harr", v[1]), i) for i in range(v[2], v[3])]
+    return None
+
+
+def _pystr(pe, st, v):
+    """a fully known string (str constant or String of known code points) as a Python str, else None"""
+    v = _deref_all(pe, st, v)
+    if v == TOP:
+        return None
+    if v[0] == "str":
+        return v[1]
+    if v[0] == "string" and all(isinstance(x, int) for x in v[1]):
+        return "".join(chr(x) for x in v[1])
+    return None
+
+
+def _mkstring(s_):
+    return ("string", tuple(ord(c) for c in s_))
+
+
+def _pattern(pe, st, v):
+    """a str/char pattern as a Python str"""
+    v = _deref_all(pe, st, v)
+    if v != TOP and v[0] == "char":
+        return chr(v[1])
+    return _pystr(pe, st, v)
+
+
+@pmodel("core::str::<impl str>::starts_with", "core::str::<impl str>::ends_with", "core::str::<impl str>::contains")
+def _str_starts_with(pe, st, args, t):
+    s_, p_ = _pystr(pe, st, args[0]), _pattern(pe, st, args[1])
+    if s_ is None or p_ is None:
+        raise _Abort("top", "starts_with()/ends_with() on an unknown string or pattern")
+    nm = (t.get("callee") or "").rsplit("::", 1)[-1]
+    return mk_bool(s_.startswith(p_) if nm == "starts_with" else (s_.endswith(p_) if nm == "ends_with" else p_ in s_))
+
+
+@pmodel("core::str::<impl str>::strip_prefix", "core::str::<impl str>::strip_suffix")
+def _str_strip_prefix(pe, st, args, t):
+    s_, p_ = _pystr(pe, st, args[0]), _pattern(pe, st, args[1])
+    if s_ is None or p_ is None:
+        raise _Abort("top", "strip_prefix() on an unknown string or pattern")
+    if (t.get("callee") or "").endswith("strip_prefix"):
+        return some(("ref", ("const", ("str", s_[len(p_):])))) if s_.startswith(p_) else NONE
+    return some(("ref", ("const", ("str", s_[:len(s_) - len(p_)])))) if s_.endswith(p_) else NONE
+
+
+@pmodel("core::str::<impl str>::trim_start_matches", "core::str::<impl str>::trim_end_matches")
+def _str_trim_matches(pe, st, args, t):
+    s_, p_ = _pystr(pe, st, args[0]), _pattern(pe, st, args[1])
+    if s_ is None or not p_:
+        raise _Abort("top", "trim_*_matches() on an unknown string or pattern")
+    if (t.get("callee") or "").endswith("trim_start_matches"):
+        while s_.startswith(p_):
+            s_ = s_[len(p_):]
+    else:
+        while s_.endswith(p_):
+            s_ = s_[:len(s_) - len(p_)]
+    return ("ref", ("const", ("str", s_)))
+
+
+@pmodel("std::string::String::remove")
+def _string_remove(pe, st, args, t):
+    r, i = args
+    s_ = _pystr(pe, st, r)
+    if r == TOP or r[0] != "ref" or s_ is None or i == TOP or i[0] != "int":
+        raise _Abort("top", "String::remove on an unknown string/index")
+    b = s_.encode()
+    if i[2] >= len(b):
+        raise _Abort("diverge", "String::remove(%d) on a string of %d bytes" % (i[2], len(b)))
+    try:
+        head = b[:i[2]].decode()
+    except UnicodeDecodeError:
+        raise _Abort("diverge", "String::remove(%d) not on a char boundary" % i[2])
+    c = s_[len(head)]
+    pe.store_ptr(st, r[1], _mkstring(head + s_[len(head) + 1:]))
+    return ("char", ord(c))
+
+
+@pmodel("std::string::String::is_empty", "core::str::<impl str>::is_empty")
+def _string_is_empty(pe, st, args, t):
+    v = _deref_all(pe, st, args[0])
+    if v != TOP and v[0] == "string":
+        if not v[1]:
+            return mk_bool(True)
+        if any(isinstance(x, int) for x in v[1]):
+            return mk_bool(False)
+    if v != TOP and v[0] == "str":
+        return mk_bool(not v[1])
+    raise _Abort("top", "is_empty() of an unknown string")
+
+
+@pmodel("core::str::<impl str>::len")
+def _str_len(pe, st, args, t):
+    s_ = _pystr(pe, st, args[0])
+    if s_ is None:
+        raise _Abort("top", "len() of an unknown string")
+    return mk_int("usize", len(s_.encode()))
+
+
+@pmodel("core::str::from_utf8", "std::str::from_utf8")
+def _from_utf8(pe, st, args, t):
+    items = _seq_items(pe, _deref_all(pe, st, args[0]))
+    if items is None or any(x == TOP or x[0] != "int" for x in items):
+        raise _Abort("top", "from_utf8() of unknown bytes")
+    try:
+        s_ = bytes(x[2] for x in items).decode("utf-8")
+    except UnicodeDecodeError:
+        return ("adt", RESULT, 1, "Err", (("tok", "Utf8Error"),))
+    return ("adt", RESULT, 0, "Ok", (("ref", ("const", ("str", s_))),))
+
+
+@pmodel("std::result::Result::<T, E>::ok")
+def _res_ok(pe, st, args, t):
+    r = _known_adt(args[0], RESULT, "ok")
+    return some(r[4][0]) if r[3] == "Ok" else NONE
+
+
+@pmodel("std::result::Result::<T, E>::is_ok", "std::result::Result::<T, E>::is_err")
+def _res_is_ok(pe, st, args, t):
+    r = _known_adt(_deref_all(pe, st, args[0]), RESULT, "is_ok")
+    return mk_bool((r[3] == "Ok") == (t.get("callee") or "").endswith("is_ok"))
+
+
+def _from_str_radix(ty):
+    from .fold import INT_BITS as IB
+    def f(pe, st, args, t):
+        s_, rad = _pystr(pe, st, args[0]), args[1]
+        if s_ is None or rad == TOP or rad[0] != "int":
+            raise _Abort("top", "from_str_radix() of an unknown string")
+        if not 2 <= rad[2] <= 36:
+            raise _Abort("diverge", "from_str_radix with radix %d" % rad[2])
+        err = ("adt", RESULT, 1, "Err", (("tok", "ParseIntError"),))
+        digits = s_
+        signed = ty.startswith("i")
+        neg = False
+        if digits[:1] == "+" or (signed and digits[:1] == "-"):
+            if len(digits) == 1:
+                return err
+            neg = digits[0] == "-"
+            digits = digits[1:]
+        if not digits:
+            return err
+        val = 0
+        for c in digits:
+            d = "0123456789abcdefghijklmnopqrstuvwxyz".find(c.lower()) if c.isascii() else -1
+            if d < 0 or d >= rad[2]:
+                return err
+            val = val * rad[2] + d
+        if neg:
+            val = -val
+        n = IB[ty] if ty in IB else 64
+        lo, hi = (-(1 << (n - 1)), (1 << (n - 1)) - 1) if signed else (0, (1 << n) - 1)
+        if not lo <= val <= hi:
+            return err
+        return ("adt", RESULT, 0, "Ok", (mk_int(ty, val),))
+    return f
+
+
+for _ty in ("u8", "u16", "u32", "u64", "usize", "i32", "i64"):
+    PMODELS["core::num::<impl %s>::from_str_radix" % _ty] = _from_str_radix(_ty)
+
+
+@pmodel("std::vec::Vec::<T, A>::push")
+def _vec_push(pe, st, args, t):
+    r, x = args
+    v = _deref(pe, st, r)
+    if r == TOP or r[0] != "ref" or v == TOP:
+        raise _Abort("top", "push on an unknown vector")
+    if v[0] == "harr":
+        ent = pe.heap.arrs[v[1]]
+        ent[2][ent[0]] = x
+        ent[0] += 1
+        pe.heap.version += 1
+        return UNIT
+    if v[0] == "array":
+        pe.store_ptr(st, r[1], ("array", tuple(v[1]) + (x,)))
+        return UNIT
+    raise _Abort("top", "push on an unknown vector")
+
+
+@pmodel("std::vec::Vec::<T>::with_capacity")
+def _vec_with_capacity(pe, st, args, t):
+    return pe.heap.new(0, TOP)
+
+
 @pmodel("core::str::<impl str>::chars")
 def _str_chars(pe, st, args, t):
     v = _deref_all(pe, st, args[0])
@@ -1739,11 +2144,17 @@ def _str_char_indices(pe, st, args, t):
     raise _Abort("top", "char_indices() of an unknown string")
 
 
-@pmodel("core::str::<impl str>::as_bytes", "core::str::<impl str>::bytes")
+@pmodel("core::str::<impl str>::as_bytes", "core::str::<impl str>::bytes", "std::string::String::as_bytes")
 def _str_as_bytes(pe, st, args, t):
     v = _deref_all(pe, st, args[0])
     if v != TOP and v[0] == "str":
         arr = ("array", tuple(mk_int("u8", b) for b in v[1].encode()))
+        if (t.get("callee") or "").endswith("::bytes"):
+            return ("iter", arr[1], 0)
+        return ("ref", ("const", arr))
+    s_ = _pystr(pe, st, v)
+    if s_ is not None:
+        arr = ("array", tuple(mk_int("u8", b) for b in s_.encode()))
         if (t.get("callee") or "").endswith("::bytes"):
             return ("iter", arr[1], 0)
         return ("ref", ("const", arr))
@@ -1840,6 +2251,14 @@ def _deref_all(pe, st, v):
         else:
             break
     return v
+
+
+@pmodel("std::fmt::Arguments::<'a>::from_str")
+def _arguments_from_str(pe, st, args, t):
+    v = _deref_all(pe, st, args[0])
+    if v != TOP and v[0] == "str":
+        return ("fmtargs", ((v[1],), ()))
+    return ("tok", "fmt::Arguments")
 
 
 @pmodel("core::fmt::rt::Argument::<'_>::new_display")
